@@ -31,12 +31,9 @@
 //       The Lean side (`TsVerif.C02.assumedBits`) states the widths the Nat-valued model relies on (every
 //       quantity that grows with the document: >= 32 bits) and judges the measurement.
 //         -> "widths child_count=<max> visible_child_count=<max> named_child_count=<max> ..."
-//   tsv-cunit_c02 cwidths
-//       the same for the index fields of the tree cursor and of the two child iterators (C06): the largest value each
-//       of TreeCursorEntry / CursorChildIterator / NodeChildIterator .child_index, .structural_child_index,
-//       .descendant_index holds (from the size of the real field), and an all-ones TreeCursorEntry read back
-//       through ts_tree_cursor_current_descendant_index.
-//         -> "cwidths entry_child_index=<max> ... current_descendant_index=<max>"
+//   tsv-cunit_c02 cwidths <lang.so> <tree_sitter_NAME>
+//       behavioural probe of the index fields of the tree cursor and of the two child iterators (C06), see cwidths().
+//         -> "cwidths n=70000 child_count=.. last_start=.. ... current_descendant_index=<max>"
 #include TSV_REPO_LIB_C
 #include "shim.c"
 #include <stdio.h>
@@ -222,27 +219,91 @@ static int widths(void) {
   return 0;
 }
 
-#define MAXOF(T, f) ((unsigned long long)(sizeof(((T *)0)->f) >= 8 ? ~0ULL : ((1ULL << (8 * sizeof(((T *)0)->f))) - 1)))
-static int cwidths(void) {
-  TreeCursor cursor;
-  memset(&cursor, 0, sizeof cursor);
+// Behavioural probe of the INDEX fields of the tree cursor and the two child iterators (C06): no field is named.
+// A flat node with N = 70 000 one-byte leaf children (N > 65 535: beyond 16 bits) is built with the real
+// ts_subtree_new_leaf / ts_subtree_new_node over the symbols of a zoo language, wrapped in a TSTree, and walked
+// with the real cursor / node functions; child i starts at byte i, so every answer is arithmetic in N.
+static int cwidths(const char *so, const char *fn) {
+  void *h = dlopen(so, RTLD_NOW | RTLD_LOCAL);
+  if (!h) { fprintf(stderr, "dlopen %s: %s\n", so, dlerror()); return 2; }
+  const TSLanguage *(*f)(void) = (const TSLanguage *(*)(void))dlsym(h, fn);
+  if (!f) { fprintf(stderr, "dlsym %s failed\n", fn); return 2; }
+  const TSLanguage *lang = f();
+  TSSymbol leafsym = 0, parentsym = 0;
+  for (uint32_t i = 1; i < lang->token_count; i++) {
+    TSSymbolMetadata m = ts_language_symbol_metadata(lang, (TSSymbol)i);
+    if (m.visible && m.named) { leafsym = (TSSymbol)i; break; }
+  }
+  for (uint32_t i = lang->token_count; i < lang->symbol_count; i++) {
+    TSSymbolMetadata m = ts_language_symbol_metadata(lang, (TSSymbol)i);
+    if (m.visible && m.named) { parentsym = (TSSymbol)i; break; }
+  }
+  if (!leafsym || !parentsym) { fprintf(stderr, "cwidths: language has no visible named token / rule\n"); return 3; }
+  const uint32_t N = 70000;
+  SubtreePool pool = ts_subtree_pool_new(32);
+  SubtreeArray kids = array_new();
+  Length zero = {0, {0, 0}}, one = {1, {0, 1}};
+  for (uint32_t i = 0; i < N; i++)
+    array_push(&kids, ts_subtree_new_leaf(&pool, leafsym, zero, one, 0, 1, false, false, false, lang));
+  Subtree root = ts_subtree_from_mut(ts_subtree_new_node(parentsym, &kids, 0, lang));
+  TSTree *tree = ts_tree_new(root, lang, NULL, 0);
+  TSNode rn = ts_tree_root_node(tree);
+  TSTreeCursor c = ts_tree_cursor_new(rn);
+  uint32_t cc = ts_node_child_count(rn);
+  // last child
+  bool ok1 = ts_tree_cursor_goto_last_child(&c);
+  uint32_t last_start = ts_node_start_byte(ts_tree_cursor_current_node(&c));
+  uint32_t last_desc = ts_tree_cursor_current_descendant_index(&c);
+  // one step back
+  bool ok2 = ts_tree_cursor_goto_previous_sibling(&c);
+  uint32_t prev_start = ts_node_start_byte(ts_tree_cursor_current_node(&c));
+  uint32_t prev_desc = ts_tree_cursor_current_descendant_index(&c);
+  // forward walk over all children
+  ts_tree_cursor_goto_parent(&c);
+  bool ok3 = ts_tree_cursor_goto_first_child(&c);
+  uint32_t steps = 0;
+  while (ts_tree_cursor_goto_next_sibling(&c) && steps < 200000) steps++;
+  uint32_t walk_start = ts_node_start_byte(ts_tree_cursor_current_node(&c));
+  uint32_t walk_desc = ts_tree_cursor_current_descendant_index(&c);
+  // goto_descendant beyond 16 bits, from the root
+  ts_tree_cursor_reset(&c, rn);
+  ts_tree_cursor_goto_descendant(&c, 65537);
+  uint32_t gd_start = ts_node_start_byte(ts_tree_cursor_current_node(&c));
+  uint32_t gd_desc = ts_tree_cursor_current_descendant_index(&c);
+  // first child for a byte beyond 16 bits
+  ts_tree_cursor_reset(&c, rn);
+  int64_t fcb = ts_tree_cursor_goto_first_child_for_byte(&c, 66000);
+  uint32_t fcb_start = ts_node_start_byte(ts_tree_cursor_current_node(&c));
+  // node.c iterator
+  TSNode nl = ts_node_child(rn, N - 1), n16 = ts_node_child(rn, 65536);
+  TSNode ns = ts_node_next_sibling(ts_node_child(rn, 65535)), ps = ts_node_prev_sibling(n16);
+  TSNode fb = ts_node_first_child_for_byte(rn, 66000);
+  TSNode db = ts_node_descendant_for_byte_range(rn, 67000, 67001);
+  // an all-ones entry read back through the accessor
+  TreeCursor fake;
+  memset(&fake, 0, sizeof fake);
   TreeCursorEntry entry;
   memset(&entry, 0xFF, sizeof entry);
-  array_push(&cursor.stack, entry);
-  unsigned long long cdi = ts_tree_cursor_current_descendant_index((const TSTreeCursor *)&cursor);
-  array_delete(&cursor.stack);
-  printf("cwidths entry_child_index=%llu entry_structural_child_index=%llu entry_descendant_index=%llu "
-         "citer_child_index=%llu citer_structural_child_index=%llu citer_descendant_index=%llu "
-         "niter_child_index=%llu niter_structural_child_index=%llu current_descendant_index=%llu\n",
-         MAXOF(TreeCursorEntry, child_index), MAXOF(TreeCursorEntry, structural_child_index), MAXOF(TreeCursorEntry, descendant_index),
-         MAXOF(CursorChildIterator, child_index), MAXOF(CursorChildIterator, structural_child_index), MAXOF(CursorChildIterator, descendant_index),
-         MAXOF(NodeChildIterator, child_index), MAXOF(NodeChildIterator, structural_child_index), cdi);
+  array_push(&fake.stack, entry);
+  uint32_t cdi = ts_tree_cursor_current_descendant_index((const TSTreeCursor *)&fake);
+  array_delete(&fake.stack);
+  printf("cwidths n=%u child_count=%u ok=%d last_start=%u last_desc=%u prev_start=%u prev_desc=%u steps=%u walk_start=%u walk_desc=%u "
+         "gd_start=%u gd_desc=%u fcb_index=%lld fcb_start=%u child_last=%u child_65536=%u next_of_65535=%u prev_of_65536=%u "
+         "node_fcb=%u node_dbr=%u current_descendant_index=%u\n",
+         N, cc, (ok1 && ok2 && ok3) ? 1 : 0, last_start, last_desc, prev_start, prev_desc, steps, walk_start, walk_desc,
+         gd_start, gd_desc, (long long)fcb, fcb_start,
+         ts_node_is_null(nl) ? 0u : ts_node_start_byte(nl), ts_node_is_null(n16) ? 0u : ts_node_start_byte(n16),
+         ts_node_is_null(ns) ? 0u : ts_node_start_byte(ns), ts_node_is_null(ps) ? 0u : ts_node_start_byte(ps),
+         ts_node_is_null(fb) ? 0u : ts_node_start_byte(fb), ts_node_is_null(db) ? 0u : ts_node_start_byte(db), cdi);
+  ts_tree_cursor_delete(&c);
+  ts_tree_delete(tree);
+  ts_subtree_pool_delete(&pool);
   return 0;
 }
 
 int main(int argc, char **argv) {
   if (argc == 2 && !strcmp(argv[1], "widths")) return widths();
-  if (argc == 2 && !strcmp(argv[1], "cwidths")) return cwidths();
+  if (argc == 4 && !strcmp(argv[1], "cwidths")) return cwidths(argv[2], argv[3]);
   if (argc == 4 && !strcmp(argv[1], "lang")) return dump_language(argv[2], argv[3]);
   if (argc == 7 && !strcmp(argv[1], "balance"))
     return balance_cases(argv[2], argv[3], argv[4], (unsigned)strtoul(argv[5], NULL, 10), (unsigned)strtoul(argv[6], NULL, 10));
